@@ -191,6 +191,45 @@ fn my_pre_process(expando: char, q: &str) -> String {
 }
 
 /// the pattern tree the holed text SHOULD give: parse the independently pre-processed text and take the single node
+/// For a hole-free pattern (the node's own text): does tree-sitter parse the text to ONE node of exactly the
+/// node's shape — same kinds, same leaf texts?  Decided on the raw parse, without the implementation's pattern
+/// conversion.
+fn parses_to_same_shape(lang: SupportLang, text: &str, t: &N) -> bool {
+  use ast_grep_core::Language;
+  let g = lang.ast_grep(text);
+  let is_single = |n: &N| {
+    let cnt = n.children().count();
+    cnt == 1 || (cnt == 2 && n.child(1).map(|c| c.get_ts_node().is_missing() || c.kind().is_empty()).unwrap_or(false))
+  };
+  fn same(a: &N, b: &N) -> bool {
+    if a.kind_id() != b.kind_id() {
+      return false;
+    }
+    let ac: Vec<N> = a.children().filter(|c| !c.get_ts_node().is_missing()).collect();
+    let bc: Vec<N> = b.children().filter(|c| !c.get_ts_node().is_missing()).collect();
+    if ac.is_empty() || bc.is_empty() {
+      return ac.is_empty() && bc.is_empty() && a.text() == b.text();
+    }
+    ac.len() == bc.len() && ac.iter().zip(bc.iter()).all(|(x, y)| same(x, y))
+  }
+  let mut n = g.root();
+  if corpus::has_error(&n) {
+    return false;
+  }
+  loop {
+    if same(&n, t) {
+      return true;
+    }
+    if !is_single(&n) {
+      return false;
+    }
+    match n.child(0) {
+      Some(c) => n = c,
+      None => return false,
+    }
+  }
+}
+
 fn expected_pattern(lang: SupportLang, text: &str) -> Option<Pattern<SupportLang>> {
   use ast_grep_core::Language;
   let pre = my_pre_process(lang.expando_char(), text);
@@ -222,7 +261,12 @@ pub fn run_c02(o: &Opts) {
   let mut parse_fail = 0u64;
   let mut sampled = false;
   for lang in langs_for(o, 2) {
-    let srcs = corpus::sources(lang, &mut rng, nsrc, 2500);
+    let mut srcs = corpus::sources(lang, &mut rng, nsrc, 2500);
+    // one source with CRLF line ends: in several grammars a line comment then ends in a carriage return
+    if let Some(s0) = srcs.first().cloned() {
+      srcs.push(s0.replace('\n', "\r\n"));
+      out.count("source:crlf-variant");
+    }
     for src in &srcs {
       let sg = corpus::parse(lang, src);
       let nodes: Vec<N> = corpus::all_nodes(sg.root())
@@ -241,7 +285,32 @@ pub fn run_c02(o: &Opts) {
         let ch: Vec<N> = n.children().collect();
         ch.len() >= 5 && !ch[ch.len() - 1].is_named() && ch[ch.len() - 2].text() == "," && ch.iter().filter(|c| c.is_named()).count() >= 2 && subtree_size(n) <= 60
       }).cloned().collect();
+      // nodes one of whose leaves ends in a carriage return (a line comment of a CRLF file, in several grammars)
+      let cr_leaf: Vec<N> = if src.contains("\r\n") {
+        nodes.iter().filter(|n| n.children().count() >= 2 && subtree_size(n) <= 120 && n.dfs().any(|d| d.is_leaf() && d.text().ends_with('\r'))).cloned().collect()
+      } else { vec![] };
       for k in 0..per_src {
+        if k % 3 == 1 && !cr_leaf.is_empty() {
+          // the node's own text as pattern
+          let t = rng.pick(&cr_leaf).clone();
+          out.count("node:has-a-leaf-ending-in-CR");
+          let cut = Cut { text: t.text().to_string(), holes: vec![], run: None };
+          if let Ok(Ok(p0)) = catch_unwind(AssertUnwindSafe(|| Pattern::try_new(&cut.text, lang))) {
+            if parses_to_same_shape(lang, &cut.text, &t) {
+              out.checked();
+              for si in 0..5 {
+                let p = p0.clone().with_strictness(strict_of(si));
+                tie_match(&mut out, &p, &t, &format!("c02-cr lang={lang} strictness={} pattern={:?}", STRICT_NAMES[si], cut.text));
+                if p.match_node(t.clone()).is_none() {
+                  out.oracle_fail("", &format!("{lang} [{}]: the text {:?} (CRLF file) parses to exactly the node's shape, yet as a pattern it does not match the node it was copied from", STRICT_NAMES[si], cut.text),
+                    json!({"stream": "c02-self", "lang": lang.to_string(), "strictness": STRICT_NAMES[si], "pattern": cut.text, "code": t.text()}));
+                  break;
+                }
+              }
+            }
+          }
+          continue;
+        }
         let use_dangling = k % 6 == 2 && !dangling.is_empty();
         let t = if use_dangling { out.count("node:list-with-dangling-separator"); rng.pick(&dangling).clone() } else if k % 5 == 1 && !wide.is_empty() { rng.pick(&wide).clone() } else { rng.pick(&nodes).clone() };
         if subtree_size(&t) > 120 {
@@ -271,6 +340,21 @@ pub fn run_c02(o: &Opts) {
           out.checked();
           out.oracle_fail("", &format!("{lang}: the pattern {:?} cut from {:?} parses to the shape of the code when pre-processed as documented, but the implementation builds a different pattern tree ({:?})", cut.text, t.text(), p0.node),
             json!({"stream": "c02-preprocess", "lang": lang.to_string(), "pattern": cut.text, "code": t.text()}));
+        }
+        // a hole-free pattern whose raw parse has exactly the node's shape must match the node: whatever the
+        // implementation's conversion made of it
+        // (nodes with at least two children: for a chain of single-child nodes with one text it is the implementation's
+        // choice which of them the pattern stands for)
+        if cut.holes.is_empty() && cut.run.is_none() && t.children().count() >= 2 && !is_cut(&p0.node, &t, &cut) && parses_to_same_shape(lang, &cut.text, &t) {
+          out.checked();
+          for si in 0..5 {
+            let p = p0.clone().with_strictness(strict_of(si));
+            if p.match_node(t.clone()).is_none() {
+              out.oracle_fail("", &format!("{lang} [{}]: the text {:?} parses to exactly the node's shape, yet as a pattern it does not match the node it was copied from (pattern tree: {:?})", STRICT_NAMES[si], cut.text, p0.node),
+                json!({"stream": "c02-self", "lang": lang.to_string(), "strictness": STRICT_NAMES[si], "pattern": cut.text, "code": t.text()}));
+              break;
+            }
+          }
         }
         if !is_cut(&p0.node, &t, &cut) {
           shape_differs += 1;
@@ -422,8 +506,58 @@ impl<'a> Aligner<'a> {
 
 struct Planned { lang: SupportLang, src: String, ptext: String, start: usize, end: usize, kind: u16, si: usize }
 
+/// `$$$` followed by a node that ends the pattern's child list, on code that has FURTHER named siblings after the
+/// first node matching it: only `smart` may leave those trailing siblings unmatched
+fn ellipsis_then_last(out: &mut Out) {
+  // (language, pattern, code, node kind to try, does the code have extra named siblings after the match?)
+  let cases: &[(SupportLang, &str, &str, bool)] = &[
+    (SupportLang::Python, "return $$$A, b", "return a, b, c", true),
+    (SupportLang::Python, "return $$$A, b", "return a, b", false),
+    (SupportLang::Python, "return $$$A, b", "return x, y, a, b, c, d", true),
+    (SupportLang::Python, "import $$$A, os", "import sys, os, re", true),
+    (SupportLang::Python, "import $$$A, os", "import sys, os", false),
+    (SupportLang::TypeScript, "let $$$A, b = 1", "let a = 0, b = 1, c = 2", true),
+    (SupportLang::TypeScript, "let $$$A, b = 1", "let a = 0, b = 1", false),
+    (SupportLang::Tsx, "let $$$A, b = 1", "let a = 0, b = 1, c = 2", true),
+    (SupportLang::JavaScript, "var $$$A, b = 1", "var a = 0, b = 1, c = 2, d = 3", true),
+    (SupportLang::JavaScript, "var $$$A, b = 1", "var b = 1", false),
+    (SupportLang::Go, "var $$$A, b int", "var a, b, c int", true),
+    (SupportLang::Ruby, "return $$$A, b", "return a, b, c", true),
+    (SupportLang::Ruby, "return $$$A, b", "return a, b", false),
+  ];
+  for (lang, ptext, code, extra) in cases {
+    let Ok(Ok(p0)) = catch_unwind(AssertUnwindSafe(|| Pattern::try_new(ptext, *lang))) else { continue };
+    let sg = corpus::parse(*lang, code);
+    if corpus::has_error(&sg.root()) {
+      continue;
+    }
+    let smart_root = sg.root().dfs().find(|n| p0.clone().with_strictness(strict_of(1)).match_node(n.clone()).is_some());
+    let Some(t) = smart_root else { continue };
+    for si in 0..5 {
+      let p = p0.clone().with_strictness(strict_of(si));
+      let what = format!("c03-ellipsis-last lang={lang} strictness={} pattern={ptext:?} code={code:?}", STRICT_NAMES[si]);
+      let (matched, _) = tie_match(out, &p, &t, &what);
+      out.checked();
+      out.count("ellipsis-then-last-pattern-node");
+      if matched {
+        out.nontrivial(&(lang.to_string(), ptext.to_string(), code.to_string(), si));
+      }
+      // smart (index 1) may skip trailing siblings; the others must see them
+      // (under `signature` token text is not compared: the first sibling of the right kind ends the ellipsis, and the
+      // matcher does not backtrack — nothing is demanded of the codes without extra siblings there)
+      let want = if *extra { si == 1 } else { true };
+      if matched != want && (*extra || si != 4) {
+        out.oracle_fail("", &format!("{lang} [{}]: pattern {ptext:?} on {code:?} {}; the code has {} named siblings after the node that ends the pattern", STRICT_NAMES[si],
+          if matched { "matches" } else { "does not match" }, if *extra { "further" } else { "no further" }),
+          json!({"stream": "c03-ellipsis-last", "lang": lang.to_string(), "pattern": ptext, "code": code, "strictness": STRICT_NAMES[si]}));
+      }
+    }
+  }
+}
+
 pub fn run_c03(o: &Opts) {
   let mut out = Out::new(&o.out);
+  ellipsis_then_last(&mut out);
   let mut plan: Vec<Planned> = vec![];
   let mut rng = Rng::new(o.seed ^ 0xc03);
   let per_src = if o.thorough { 400 } else { 150 };
